@@ -11,6 +11,7 @@ from .oracle_c07 import all_modes, is_bin
 PROPERTY = 'C08'
 LEVEL = 'exploration'
 RULE = ('random treebanks (1..8 trees, small label pools, duplicated trees, '
+        'in 6 % of them one tree that is a single token, '
         'same rule under different parents => several vertical contexts) '
         'built through the Tree API; grammar extracted with the real extract, '
         'then binarized in every mode: treebank / leftright / optimal x '
@@ -25,7 +26,9 @@ WATCHDOG = {'quick': 900, 'thorough': 5400}
 MIN = {'quick': {'distinct': 2000,
                  'hooks': {'grammar.binarize': 5000, 'grammar.extract': 1500},
                  'strata': {'markov': 3000, 'deterministic': 1000,
-                            'rule in >=2 vertical contexts': 300}},
+                            'rule in >=2 vertical contexts': 300,
+                            'a tree that is a single token (its tag is a '
+                            'root)': 100}},
        'thorough': {'distinct': 100000, 'hooks': {'grammar.binarize': 300000}}}
 
 
@@ -114,7 +117,17 @@ def run_bank(ctx, bank, rng, modes, case):
     Cur.stats = lcfrs.treebank_rule_stats(bank)
     grammar, lexicon = {}, {}
     for spec in bank:
-        live = common.live_tree(ctx, spec, rng)
+        if 'c' not in spec['root']:
+            # a tree that is a single token (what the bracket reader yields
+            # for `(UH Yes)`): its tag occurs as a tree root
+            T = R.trees
+            live = T.Tree(T.make_node_data())
+            tk = spec['root']
+            live.data.update(word=tk['w'], label=tk['p'], num=1, edge='--',
+                             morph='--', lemma='--', sid=spec['sid'])
+            ctx.stratum('a tree that is a single token (its tag is a root)')
+        else:
+            live = common.live_tree(ctx, spec, rng)
         with common.captured():
             G.extract(live, grammar, lexicon)
     bad = conservation(grammar, Cur.stats, 'treebank grammar')
@@ -152,6 +165,13 @@ def shard(ctx):
     for i in ctx.indices(ctx.pick(6000, 60000)):
         rng = ctx.rng('bank', i)
         bank = make_bank(rng, quick)
+        if rng.random() < 0.06:
+            # one more tree: a token of the treebank on its own
+            tk = rng.choice(gen.tokens_of(rng.choice(bank)['root']))
+            bank.insert(rng.randrange(len(bank) + 1),
+                        {'sid': len(bank) + 1,
+                         'root': {'n': 1, 'w': tk['w'], 'p': tk['p'],
+                                  'e': '--', 'm': '--', 'lm': '--'}})
         ms = [None] + [modes[rng.randrange(1, len(modes))]
                        for _ in range(ctx.pick(4, 8))]
         run_bank(ctx, bank, rng, ms, {'kind': 'bank', 'bank': bank})
